@@ -10,12 +10,13 @@ SWAP = {'==': '==', '!=': '!=', '<': '>', '>': '<', '<=': '>=', '>=': '<='}
 
 
 class Guard:
-    __slots__ = ('fn', 'rel', 'lhs', 'rhs', 'errs', 'ln', 'block', 'idiom', 'fail_block', 'raw')
+    __slots__ = ('fn', 'rel', 'lhs', 'rhs', 'errs', 'ln', 'block', 'idiom', 'fail_block', 'raw', 'pass_block')
 
     def __init__(self, fn, rel, lhs, rhs, errs, ln, block, idiom, fail_block=None):
         self.fn, self.rel, self.lhs, self.rhs, self.errs, self.ln, self.block, self.idiom = fn, rel, lhs, rhs, errs, ln, block, idiom
         self.fail_block = fail_block
         self.raw = None
+        self.pass_block = None
 
     def text(self):
         if self.rel == 'truth':
@@ -89,6 +90,28 @@ class GuardExtractor:
         return out
 
     # ---------------- conditions
+    def _continue_after(self, bi):
+        """for `cond.then_some(x).ok_or(E)?`: the block reached when the `?` continues (first two-way switch on a ControlFlow
+        discriminant downstream of block bi, its `Continue` = 0 target)"""
+        seen, cur = set(), bi
+        for _ in range(12):
+            if cur in seen:
+                return None
+            seen.add(cur)
+            t = self.b.B[cur]['term']
+            if t['k'] == 'switch':
+                for v, tgt in t['ts']:
+                    if str(v) == '0':
+                        return tgt
+                return None
+            nx = self.b.succs(cur)
+            if t['k'] == 'call':
+                nx = [t['t']] if t['t'] is not None and t['t'] >= 0 else []
+            if len(nx) != 1:
+                return None
+            cur = nx[0]
+        return None
+
     def _variant_flag(self, l):
         """`matches!(X, Some(_))` / `matches!(X, None)` materialise the pattern test as a bool: `_l = true` in the block a two-way
         discriminant switch on X (Option / Result) enters for one variant, `_l = false` on the other side."""
@@ -254,8 +277,10 @@ class GuardExtractor:
                     if err:
                         if rel[0] in NEG:
                             out.append(Guard(fnq, NEG[rel[0]], rel[1], rel[2], err, b['ln'], bi, 'then_some'))
+                            out[-1].raw = self.raw_of_local(a0['pl']['l'])
                         else:
                             out.append(Guard(fnq, 'not' if rel[0] == 'truth' else 'truth', rel[1], '', err, b['ln'], bi, 'then_some'))
+                        out[-1].pass_block = self._continue_after(bi)
         return out
 
 
